@@ -124,9 +124,7 @@ def gen_int(c, d):
         return "(begin (set! %s %s) %s)" % (x, gen_int(c, d - 1), x)
     if k == "handler":
         c.features.add("handler")
-        bad = r.choice(["(car '())", "(error \"boom\" 1)", "(vector-ref (vector 1 2) 5)", "(+ 1 'a)", "(undefined-arity-f)"])
-        if bad == "(undefined-arity-f)":
-            bad = "((lambda (a b) a) 1)"
+        bad = r.choice(["(car '())", "(error \"boom\" 1)", "(vector-ref (vector 1 2) 5)", "(+ 1 'a)"])
         return "(with-handler (lambda (e) %s) (+ 1 %s))" % (gen_int(c, d - 1), bad)
     if k == "dead":
         c.features.add("dead-error")
@@ -270,9 +268,10 @@ def gen_program(rng, size=3):
         elif kind == "closure":
             c.features.add("closure-mutation")
             cnt = c.fresh("cnt")
+            init = gen_int(cc, 1)
             cc.vars[INT].append(cnt); cc.mut.append(cnt)
             body = "(let ((%s %s)) (let ((inc (lambda (d) (set! %s (+ %s d)) %s))) (inc 1) (inc %s) (+ %s (inc 2))))" % (
-                cnt, gen_int(cc, 1), cnt, cnt, cnt, gen_int(cc, size - 2), cnt)
+                cnt, init, cnt, cnt, cnt, gen_int(cc, size - 2), cnt)
         else:
             body = gen_int(cc, size)
         c.counter = cc.counter
